@@ -276,9 +276,12 @@ def display_image(im, scaling='auto', vert_axis='x', horiz_axis='y',
     im.attrs['_image_scaling'] = scaling
 
     if colour_axis in im.dims:
-        cols = [col[0].capitalize() if isinstance(col, str) else ' '
+        # only the names of the colours (or their initials) stand for colours
+        names = {'red': 'R', 'r': 'R', 'green': 'G', 'g': 'G',
+                 'blue': 'B', 'b': 'B'}
+        cols = [names.get(col.lower(), ' ') if isinstance(col, str) else ' '
                                         for col in im[colour_axis].values]
-        RGB_names = np.all([letter in 'RGB' for letter in cols])
+        RGB_names = ' ' not in cols and len(set(cols)) == len(cols)
         if len(im[colour_axis]) == 1:
             im = im.squeeze(dim=colour_axis)
             im.attrs['_single_channel'] = colour_axis
